@@ -70,8 +70,28 @@ let rec mul n0 m =
   | O -> O
   | S p -> add m (mul p m)
 
+(** val sub : nat -> nat -> nat **)
+
+let rec sub n0 m =
+  match n0 with
+  | O -> n0
+  | S k -> (match m with
+            | O -> n0
+            | S l -> sub k l)
+
 module Nat =
  struct
+  (** val eqb : nat -> nat -> bool **)
+
+  let rec eqb n0 m =
+    match n0 with
+    | O -> (match m with
+            | O -> true
+            | S _ -> false)
+    | S n' -> (match m with
+               | O -> false
+               | S m' -> eqb n' m')
+
   (** val leb : nat -> nat -> bool **)
 
   let rec leb n0 m =
@@ -11489,6 +11509,127 @@ let line_and_column content index =
        in
        ((Z.add l (Zpos XH)), (Z.add c (Zpos XH)))
 
+(** val bol_loop : bytes -> n -> nat -> nat -> nat option **)
+
+let rec bol_loop content nl index i =
+  match nth_error content i with
+  | Some c ->
+    if (&&) (N.eqb c nl) (negb (Nat.eqb i index))
+    then Some (S i)
+    else (match i with
+          | O -> Some O
+          | S j -> bol_loop content nl index j)
+  | None -> None
+
+(** val beginning_of_line : bytes -> nat -> nat option **)
+
+let beginning_of_line content index =
+  let n0 = length content in
+  (match n0 with
+   | O -> None
+   | S m -> bol_loop content (newline_symbol content) index (Nat.min index m))
+
+(** val eol_loop : n -> bytes -> nat -> nat **)
+
+let rec eol_loop nl rest i =
+  match rest with
+  | [] -> i
+  | c :: r -> if N.eqb c nl then i else eol_loop nl r (S i)
+
+(** val end_of_line : bytes -> nat -> nat option **)
+
+let end_of_line content index =
+  let nl = newline_symbol content in
+  let i = eol_loop nl (skipn index content) index in
+  (match i with
+   | O -> Some O
+   | S j ->
+     (match nth_error content j with
+      | Some c ->
+        if (||)
+             ((&&) (N.eqb nl (Npos (XO (XI (XO XH)))))
+               (N.eqb c (Npos (XI (XO (XI XH))))))
+             ((&&) (N.eqb nl (Npos (XI (XO (XI XH)))))
+               (N.eqb c (Npos (XO (XI (XO XH))))))
+        then Some j
+        else Some i
+      | None -> None))
+
+(** val is_blank : n -> bool **)
+
+let is_blank c =
+  (||)
+    ((||)
+      ((||) (N.eqb c (Npos (XO (XO (XO (XO (XO XH)))))))
+        (N.eqb c (Npos (XI (XO (XO XH))))))
+      (N.eqb c (Npos (XO (XI (XO XH)))))) (N.eqb c (Npos (XI (XO (XI XH)))))
+
+(** val trim_spaces_from_left : bytes -> bytes **)
+
+let trim_spaces_from_left b =
+  match drop_while is_blank b with
+  | [] -> b
+  | n0 :: l -> n0 :: l
+
+(** val dots : n list **)
+
+let dots =
+  (Npos (XO (XI (XI (XI (XO XH)))))) :: ((Npos (XO (XI (XI (XI (XO
+    XH)))))) :: ((Npos (XO (XI (XI (XI (XO XH)))))) :: []))
+
+(** val quote : bytes -> z -> bytes option **)
+
+let quote content index =
+  match content with
+  | [] -> Some []
+  | _ :: _ ->
+    if Z.ltb index Z0
+    then None
+    else (match beginning_of_line content (Z.to_nat index) with
+          | Some b ->
+            (match end_of_line content (Z.to_nat index) with
+             | Some e ->
+               if Nat.ltb e b
+               then None
+               else if Nat.ltb (S (S (S (S (S (S (S (S (S (S (S (S (S (S (S
+                         (S (S (S (S (S (S (S (S (S (S (S (S (S (S (S (S (S
+                         (S (S (S (S (S (S (S (S (S (S (S (S (S (S (S (S (S
+                         (S (S (S (S (S (S (S (S (S (S (S (S (S (S (S (S (S
+                         (S (S (S (S (S (S (S (S (S (S (S (S (S (S (S (S (S
+                         (S (S (S (S (S (S (S (S (S (S (S (S (S (S (S (S (S
+                         (S (S (S (S (S (S (S (S (S (S (S (S (S (S (S (S (S
+                         (S (S (S (S (S (S (S (S (S (S (S (S (S (S (S (S (S
+                         (S (S (S (S (S (S (S (S (S (S (S (S (S (S (S (S (S
+                         (S (S (S (S (S (S (S (S (S (S (S (S (S (S (S (S (S
+                         (S (S (S (S (S (S (S (S (S (S (S (S (S (S (S (S (S
+                         (S (S (S (S (S (S (S (S (S (S (S (S (S (S (S
+                         O))))))))))))))))))))))))))))))))))))))))))))))))))))))))))))))))))))))))))))))))))))))))))))))))))))))))))))))))))))))))))))))))))))))))))))))))))))))))))))))))))))))))))))))))))))))))))))))))))))))))
+                         (sub e b)
+                    then Some
+                           (app
+                             (trim_spaces_from_left
+                               (firstn (S (S (S (S (S (S (S (S (S (S (S (S (S
+                                 (S (S (S (S (S (S (S (S (S (S (S (S (S (S (S
+                                 (S (S (S (S (S (S (S (S (S (S (S (S (S (S (S
+                                 (S (S (S (S (S (S (S (S (S (S (S (S (S (S (S
+                                 (S (S (S (S (S (S (S (S (S (S (S (S (S (S (S
+                                 (S (S (S (S (S (S (S (S (S (S (S (S (S (S (S
+                                 (S (S (S (S (S (S (S (S (S (S (S (S (S (S (S
+                                 (S (S (S (S (S (S (S (S (S (S (S (S (S (S (S
+                                 (S (S (S (S (S (S (S (S (S (S (S (S (S (S (S
+                                 (S (S (S (S (S (S (S (S (S (S (S (S (S (S (S
+                                 (S (S (S (S (S (S (S (S (S (S (S (S (S (S (S
+                                 (S (S (S (S (S (S (S (S (S (S (S (S (S (S (S
+                                 (S (S (S (S (S (S (S (S (S (S (S (S (S (S (S
+                                 (S (S (S (S
+                                 O)))))))))))))))))))))))))))))))))))))))))))))))))))))))))))))))))))))))))))))))))))))))))))))))))))))))))))))))))))))))))))))))))))))))))))))))))))))))))))))))))))))))))))))))))))))))))))))))))))))
+                                 (skipn b content))) dots)
+                    else Some
+                           (trim_spaces_from_left
+                             (firstn (sub e b) (skipn b content)))
+             | None -> None)
+          | None -> None)
+
 type sitem = { si_file : n; si_conf : conf; si_at : z }
 
 type cstate = { cs_forest : dir list; cs_ctx : path option;
@@ -12441,7 +12582,8 @@ let rec olen_lookup t name k pos =
     then r
     else olen_lookup rest name k pos
 
-type rloc = { rl_name : bytes; rl_index : z; rl_line : z; rl_col : z }
+type rloc = { rl_name : bytes; rl_index : z; rl_line : z; rl_col : z;
+              rl_quote : bytes option }
 
 type rerr = { re_fmt : string; re_args : bytes list; re_suffix : rloc list;
               re_loc : rloc; re_trace : rloc list }
@@ -12453,8 +12595,10 @@ let render_loc files f i =
   | Some p ->
     let (n0, c) = p in
     let (l, col) = line_and_column c i in
-    { rl_name = n0; rl_index = i; rl_line = l; rl_col = col }
-  | None -> { rl_name = []; rl_index = i; rl_line = Z0; rl_col = Z0 }
+    { rl_name = n0; rl_index = i; rl_line = l; rl_col = col; rl_quote =
+    (quote c i) }
+  | None ->
+    { rl_name = []; rl_index = i; rl_line = Z0; rl_col = Z0; rl_quote = None }
 
 (** val render_err : (bytes * bytes) list -> cerr -> rerr **)
 
